@@ -80,15 +80,105 @@ func isProposeStep(in ssa.Instruction) bool {
 }
 
 func checkC07(w *World, r *Report) {
-	r.Decides = "C07 is decided in its structural part only: (a) in the restore loader every decoded record that carries a pair is appended to the pending batch before the next read or the next proposal, the batch is cleared only after it was marshalled, every success return is preceded by a proposal after the last append, a failed proposal returns its error, and the proposal sends the marshalled batch; (b) the table image is read from one Pebble snapshot: the state machine hands NewSnapshot() to the dump, which reads index and pairs from that one reader; (c) the leader stream appends a terminator carrying the dump's index after the dump and before the file is synced, rewound and copied out, and the loader forwards the record's leader index into the batch it proposes and clears it only after marshalling; (d) the dump writes a pair exactly when its key is a user key and every user pair of the unfiltered iterator reaches the writer; (e) Restore switches the catalogue to the freshly numbered shard only after the load succeeded; (f) the backup client opens the restore stream only on the checksum-equal edge, with the hash reset and fed the whole file per table, and records the checksum of the bytes it wrote."
+	r.Decides = "C07 is decided in its structural part only: (a) in the restore loader every decoded record that carries a pair is appended to the pending batch before the next read or the next proposal, the batch is cleared only after it was marshalled, every success return is preceded by a proposal after the last append, a failed proposal returns its error, and the proposal sends the marshalled batch; (b) the table image is read from one Pebble snapshot: the state machine hands NewSnapshot() to the dump, which reads index and pairs from that one reader; (c) the leader stream appends a terminator carrying the dump's index after the dump and before the file is synced, rewound and copied out, and the loader forwards the record's leader index into the batch it proposes and clears it only after marshalling; (d) the dump writes a pair exactly when its key is a user key and every user pair of the unfiltered iterator reaches the writer; (e) Restore switches the catalogue to the freshly numbered shard only after the load succeeded; (f) the backup client opens the restore stream only on the checksum-equal edge, with the hash reset and fed the whole file per table, and records the checksum of the bytes it wrote. (g) the maintenance RPCs acknowledge a restore only after the Tables service loaded the stream and rewind their spool files."
 	r.NotDecided = []string{"equality of restored and captured contents at value level", "interplay of chunk sizes and buffer sizes (framing is C18)", "that nothing of the old content survives beyond the directory switch (C14.c)"}
 	r.Assume = []string{"io.Reader contract of the snapshot file (one record per Read)", "Pebble snapshots are point-in-time"}
 	c07Loader(w, r, "C07.a", "a-no-record-lost")
-	c07PointInTime(w, r)
+	c07PointInTime(w, r, "C07.b", "b-point-in-time")
 	c07Terminator(w, r, "C07.c", "c-index-travels")
 	c07UserPairs(w, r, "C07.d", "d-only-and-all-user-pairs")
 	c07Switch(w, r, "C07.e", "e-switch-after-load")
 	c07Checksum(w, r)
+	c07RPC(w, r)
+}
+
+// c07RPC: the maintenance RPCs around the table stream do every step of their pipeline.
+func c07RPC(w *World, r *Report) {
+	ob := r.Ob("C07.g", "g-maintenance-rpc-pipeline", "BackupServer.Restore: no acknowledgement (SendAndClose) and no nil return is reachable from the entry without crossing the Tables service's Restore call, and between the copy of the upload into the spool file and that call the file is rewound (Seek(0, io.SeekStart)); BackupServer.Backup: between the table's Snapshot into the spool file and the copy out to the stream the file is rewound", "a restore that is acknowledged without the stream having been loaded leaves the old content in place behind a success; a spool file that is not rewound is read from its end: nothing is restored / an empty backup is delivered")
+	isSeekStart := func(in ssa.Instruction) bool {
+		c := callOf(in)
+		if c == nil {
+			return false
+		}
+		n := CalleeName(c)
+		if !strings.HasSuffix(n, ".Seek") {
+			return false
+		}
+		args := c.Args
+		if !c.IsInvoke() {
+			args = args[1:]
+		}
+		if len(args) != 2 {
+			return false
+		}
+		off, ok1 := constInt(args[0])
+		wh, ok2 := constInt(args[1])
+		return ok1 && ok2 && off == 0 && wh == 0
+	}
+	isCopy := func(in ssa.Instruction) bool {
+		c := plainCall(in)
+		return c != nil && (CalleeName(c) == "io.Copy" || CalleeName(c) == "io.CopyBuffer" || CalleeName(c) == "io.CopyN")
+	}
+	if fn := w.Func("regattaserver", "BackupServer.Restore"); fn != nil {
+		isLoad := func(in ssa.Instruction) bool {
+			c := callOf(in)
+			return c != nil && c.IsInvoke() && c.Method.Name() == "Restore"
+		}
+		var load, cp ssa.Instruction
+		eachInstr(fn, func(in ssa.Instruction) {
+			if isLoad(in) {
+				load = in
+			}
+			if isCopy(in) {
+				cp = in
+			}
+		})
+		if load == nil || cp == nil {
+			ob.Violate("restore-rpc-shape", fn.Pos(), "BackupServer.Restore no longer spools the upload with io.Copy and hands it to the Tables service's Restore")
+		} else {
+			ob.Site(load.Pos(), "restore RPC loads the spooled stream")
+			isAck := func(in ssa.Instruction) bool {
+				if c := callOf(in); c != nil && c.IsInvoke() && c.Method.Name() == "SendAndClose" {
+					return true
+				}
+				return isSuccessReturn(in)
+			}
+			if p := (&Walk{Barrier: isLoad, Target: isAck}).Find(entry(fn)); p != nil {
+				ob.Violate("restore-acknowledged-without-load", instrPos(p.Hit), "BackupServer.Restore can acknowledge (or return nil) without having called the Tables service's Restore: the table keeps its old content behind a success", w.PathString(p)...)
+			}
+			if p := (&Walk{Barrier: isSeekStart, Target: func(x ssa.Instruction) bool { return x == load }}).Find(after(cp)); p != nil {
+				ob.Violate("restore-spool-not-rewound", load.Pos(), "the spool file is handed to Restore without having been rewound after the upload was copied into it", w.PathString(p)...)
+			}
+		}
+	} else {
+		ob.Undecided("anchor/restore", "BackupServer.Restore not found")
+	}
+	if fn := w.Func("regattaserver", "BackupServer.Backup"); fn != nil {
+		var snap, cp ssa.Instruction
+		eachInstr(fn, func(in ssa.Instruction) {
+			if c := callOf(in); c != nil && ((c.IsInvoke() && c.Method.Name() == "Snapshot") || strings.HasSuffix(CalleeName(c), ".Snapshot")) {
+				snap = in
+			}
+			if isCopy(in) {
+				cp = in
+			}
+		})
+		if snap == nil || cp == nil {
+			ob.Violate("backup-rpc-shape", fn.Pos(), "BackupServer.Backup no longer spools the table's Snapshot and copies it to the stream")
+		} else {
+			ob.Site(snap.Pos(), "backup RPC spools the table stream")
+			if p := (&Walk{Barrier: isSeekStart, Target: func(x ssa.Instruction) bool { return x == cp }}).Find(after(snap)); p != nil {
+				ob.Violate("backup-spool-not-rewound", cp.Pos(), "the spool file is copied to the stream without having been rewound after the snapshot was written into it", w.PathString(p)...)
+			}
+			// the copy to the stream is crossed before a nil return
+			if p := (&Walk{Barrier: func(x ssa.Instruction) bool { return x == cp }, Target: isSuccessReturn}).Find(after(snap)); p != nil {
+				ob.Violate("backup-not-sent", instrPos(p.Hit), "BackupServer.Backup can return nil without having copied the spooled stream to the client", w.PathString(p)...)
+			}
+		}
+	} else {
+		ob.Undecided("anchor/backup", "BackupServer.Backup not found")
+	}
+	ob.NeedFloor(2)
 }
 
 func c07Loader(w *World, r *Report, id, slug string) {
@@ -132,10 +222,10 @@ func c07Loader(w *World, r *Report, id, slug string) {
 		}
 		n := CalleeName(c)
 		if strings.HasSuffix(n, "regattapb.Command).UnmarshalVT") || strings.HasSuffix(n, "regattapb.Command).UnmarshalVTUnsafe") {
-			decode, rec = in, c.Args[0]
+			decode, rec = in, resolveObj(c.Args[0])
 		}
 		if strings.HasSuffix(n, "regattapb.Command).MarshalVT") {
-			marshal, batch = in, c.Args[0]
+			marshal, batch = in, resolveObj(c.Args[0])
 		}
 	})
 	if decode == nil || marshal == nil {
@@ -150,7 +240,7 @@ func c07Loader(w *World, r *Report, id, slug string) {
 			return false
 		}
 		u := v.(*ssa.UnOp)
-		return u.X.(*ssa.FieldAddr).X == rec
+		return resolveObj(u.X.(*ssa.FieldAddr).X) == rec
 	}
 	isKeep := func(in ssa.Instruction) bool {
 		c := plainCall(in)
@@ -293,8 +383,8 @@ func c07Loader(w *World, r *Report, id, slug string) {
 	ob.NeedFloor(4)
 }
 
-func c07PointInTime(w *World, r *Report) {
-	ob := r.Ob("C07.b", "b-point-in-time", "in the state machine's snapshot-request arm the reader handed to the dump is a NewSnapshot() result; inside the dump the index read and the iterator both use the dump's reader parameter", "index and content read from different moments: after a follower recovery the recorded leader index does not match the content")
+func c07PointInTime(w *World, r *Report, id, slug string) {
+	ob := r.Ob(id, slug, "in the state machine's snapshot-request arm the reader handed to the dump is a NewSnapshot() result; inside the dump the index read and the iterator both use the dump's reader parameter", "index and content read from different moments: after a follower recovery the recorded leader index does not match the content")
 	a := w.FsmAnchors()
 	dump := w.Func(fsmRel, "commandSnapshot")
 	if a.Lookup == nil || dump == nil {
